@@ -537,7 +537,23 @@ func (s *Stage) Recover() {
 					validate = append(validate, cmp)
 				}
 			} else if _, err = os.Stat(base); os.IsNotExist(err) {
-				// Not found
+				// Not found.  If the previous run died in the middle of
+				// moving the (validated and logged) file to its final place,
+				// the file is still there under its temporary name: finish
+				// the move before dropping the companion.
+				targetName := cmp.Name
+				if cmp.Renamed != "" {
+					targetName = cmp.Renamed
+				}
+				target := filepath.Join(s.targetDir, targetName)
+				if _, lckErr := os.Stat(target + fileutil.LockExt); lckErr == nil {
+					if err = os.Rename(target+fileutil.LockExt, target); err != nil {
+						s.logError("Failed to complete interrupted move:",
+							target, err.Error())
+						return nil
+					}
+					s.logInfo("Completed interrupted move:", target)
+				}
 				if err = os.Remove(path); err != nil {
 					s.logError("Failed to remove orphaned companion:",
 						path, err.Error())
